@@ -488,6 +488,26 @@ def regex_programs(quick):
     return out
 
 
+def strquote_programs(rnd, quick):
+    """states of spec/JsStrQuote.tla rendered: x=Q<pressure><escape><follower>Q; (quick: a seeded 45% sample + every state whose
+    escape writes "$" or a backtick and whose follower starts with a brace)"""
+    sub = lambda t: t.replace('DQ', '"').replace('SQ', "'").replace('BT', '`').replace('BS', '\\')
+    out = []
+    for q in sorted(tla_string_set('JsStrQuote', 'Quotes')):
+        for pr in sorted(tla_string_set('JsStrQuote', 'Pressures')):
+            for esc in sorted(tla_string_set('JsStrQuote', 'Escapes')):
+                for fo in sorted(tla_string_set('JsStrQuote', 'Followers')):
+                    hot = ('24' in esc or '44' in esc or '$' in esc or '60' in esc or 'BT' in esc) and fo[:1] in ('{', 'B')
+                    if quick and not hot and rnd.random() > 0.45:
+                        continue
+                    qq = sub(q)
+                    body = sub(pr) + sub(esc) + sub(fo)
+                    # the input literal must be closed by its own delimiter only: a literal delimiter inside is escaped
+                    body = re.sub(r'(?<!\\)' + re.escape(qq), lambda m: '\\' + qq, body)
+                    out.append(('x=%s%s%s;' % (qq, body, qq)).encode())
+    return out
+
+
 def css_string_documents():
     """states of spec/CssStrCtx.tla rendered: list of (lang, inline, bytes, origin)"""
     docs = []
@@ -665,7 +685,7 @@ def tlc_jobs(ctx):
     """design-level model checking (run in threads next to the driver)"""
     q = ctx.quick()
     jobs = [('Closure', 'Closure_mc.cfg' if q else 'Closure_mc4.cfg', None),
-            ('JsRewrite', 'JsRewrite.cfg', None), ('CssStrCtx', 'CssStrCtx.cfg', None), ('JsRegex', 'JsRegex.cfg', None),
+            ('JsRewrite', 'JsRewrite.cfg', None), ('CssStrCtx', 'CssStrCtx.cfg', None), ('JsRegex', 'JsRegex.cfg', None), ('JsStrQuote', 'JsStrQuote.cfg', None),
             ('JsPrintCtx', 'JsPrintCtx_1.cfg', 'printctx')] + ([] if q else [('JsPrintCtx', 'JsPrintCtx_2.cfg', None)]) + [
             ('JsLexAdj', 'JsLexAdj_full3.cfg' if q else 'JsLexAdj_full4.cfg', 'adj-full'),
             ('JsLexAdj', 'JsLexAdj_core4.cfg' if q else 'JsLexAdj_core6.cfg', 'adj-core')]
@@ -840,6 +860,13 @@ def run(ctx):
         if not quick or rnd.random() < 0.2:
             cs.add('html', 'default', data=b'<script>' + prog + b'</script>', origin='regex-host')
     ctx.coverage['regex_programs'] = nre
+    nsq = 0
+    for prog in (strquote_programs(rnd, quick) if not only_pinned else []):
+        if cs.add('js', 'default' if rnd.random() < 0.8 else rnd.choice(OPTSETS['js'][1:]), data=prog, origin='strquote:' + prog.decode('latin1')) is not None:
+            nsq += 1
+        if b'/script' in prog or rnd.random() < (0.05 if quick else 0.3):
+            cs.add('html', 'default', data=b'<script>' + prog + b'</script>', origin='strquote-host')
+    ctx.coverage['strquote_programs'] = nsq
     ncss = 0
     for lang, inline, doc, origin in (css_string_documents() if not only_pinned else []):
         for o in (OPTSETS[lang] if not quick else ['default'] + ([rnd.choice(OPTSETS[lang][1:])] if rnd.random() < 0.3 else [])):
